@@ -118,6 +118,7 @@ class QueryFamily:
         d['cache_retrievals'] += io.get('cache_retrievals', 0)
         d['cases_with_cache_hits'] += 1 if io.get('cache_retrievals', 0) else 0
         d['form_' + case.get('form', 'set_of')] += 1
+        d['objects_equal_by_value_joined'] += 1 if case.get('value_equal_join') else 0
         return d
 
     # ---- shrinking ------------------------------------------------------------------------------
@@ -333,7 +334,7 @@ class C02(QueryFamily):
             return gen_query.gen_case_conj_under_disj(rng, tier)
         if r < 0.5:
             return gen_query.gen_case_dedup(rng, tier)
-        if r < 0.6:
+        if r < 0.65:
             return gen_query.gen_case_object_join(rng, tier)
         nv = rng.choice([2, 2, 3] if tier == 'quick' else [2, 3, 3, 4])
         return gen_query.gen_case(rng, nvars=nv, falsy=True, neg=True, maxdepth=3, select=rng.choice(['all', 'all', 'some']),
@@ -630,11 +631,15 @@ class C05(QueryFamily):
 
     def gen(self, rng, i, tier):
         r = rng.random()
-        if r < 0.1:
-            # literal-free joins over three variables: literal ids in the cache keys would otherwise hide partial coverage
-            return gen_query.gen_case(rng, nvars=3, falsy=False, neg=rng.random() < 0.3, maxdepth=3, select='all', dom_max=3, p_lit=0.0)
+        if r < 0.18:
+            # literal-free joins over three variables: literal ids in the cache keys would otherwise hide partial coverage; all
+            # variables selected, or a projection (replayed rows then pass the de-duplication of the operators above them)
+            return gen_query.gen_case(rng, nvars=3, falsy=False, neg=rng.random() < 0.3, maxdepth=3, select=rng.choice(['all', 'some']),
+                                      dom_max=3, p_lit=0.0)
         if r < 0.3:
             return gen_query.gen_case_join(rng, tier)
+        if r < 0.4:
+            return gen_query.gen_case_disjunction_chain(rng, tier)
         if r < 0.5:
             return gen_query.gen_case(rng, nvars=rng.choice([1, 2, 2, 3, 3]), falsy=True, neg=True, maxdepth=3,
                                       select=rng.choice(['all', 'some']), dom_max=4)
